@@ -698,7 +698,10 @@ Proof.
     pose proof (phase1_no_panic s) as H3. destruct (phase1 s) as [s1 o1]. cbn [fst snd] in *.
     destruct (process_R (length (cq s1)) s1 H2 H1) as [Hp Hnp].
     destruct (process (length (cq s1)) s1) as [s2 o2]. cbn [fst snd] in *.
-    split; [exact Hp|]. intros _ H. apply in_app_iff in H. tauto.
+    split; [exact (RInv_same s2 _ eq_refl eq_refl eq_refl eq_refl Hp)|]. intros _ H.
+    apply in_app_iff in H. destruct H as [H|H]; [tauto|]. apply in_app_iff in H.
+    destruct H as [H|H]; [tauto|]. cbn [wake_blocked snd] in H. apply in_map_iff in H.
+    destruct H as (x & E & _). discriminate.
   - split; [|discriminate]. unfold kpost. destruct (existsb _ _); [|exact HR].
     apply RInv_post. destruct (more c); [exact HR|apply (RInv_same s); auto].
 Qed.
